@@ -35,7 +35,7 @@ MANIFEST = {
             'shapes x 3 value kinds x 5 lookup forms are rendered through '
             'String/HTML.__call__; all nestings up to depth 3 (quick) / 4 '
             '(thorough) of the binders {in, batched in, with, with mapping, '
-            'with only, let, if-by-name, try/except handler, sub-template '
+            'with only, let (from an expression / from a name), if-by-name, try/except handler, sub-template '
             'with own defaults}, each level rebinding the probe name or '
             'not, carry a probe before, inside and after every block.  Text '
             'and call log must equal those of the reference stack model '
@@ -61,8 +61,8 @@ ASSUMPTIONS = ['client objects are plain attribute bags; the _ prefix rule '
 SOURCES = ('kw', 'tvar', 'client', 'mapping', 'ckw', 'cmap')
 FORMS = ('var', 'call', 'callexpr', 'varexprcall', 'entity', 'ifvar',
          'exprlambda', 'exprcomp', 'exprgen')
-BINDERS = ('in', 'inb', 'with', 'withmap', 'withonly', 'let', 'if', 'try',
-           'sub')
+BINDERS = ('in', 'inb', 'with', 'withmap', 'withonly', 'let', 'letn', 'if',
+           'try', 'sub')
 SYNTAXES = ('dtml', 'ssi', 'epfs')
 
 
@@ -308,6 +308,11 @@ def build_scope(case):
             node = ['with', N('obj%d' % k), inner, ['only']]
         elif kind == 'let':
             node = ['let', [[name, E("'%s'" % marker)]], inner]
+        elif kind == 'letn':
+            # bound from another (longer) name, next to a second binding
+            ns['letsrc%d' % k] = ['lit', marker]
+            node = ['let', [['other%d' % k, E('1 + 1')],
+                            [name, N('letsrc%d' % k)]], inner]
         elif kind == 'if':
             # caches the value of a callable under its name
             ns['c%d' % k] = ['probe', 'c%d' % k, ['lit', marker]]
